@@ -466,7 +466,7 @@ def pinned_f1(ctx):
 
 
 def run(ctx):
-    broken = common.proof_stage(ctx, ["SoxrModel.Properties.C14", "SoxrModel.Phase.Main"], "C14", exes=())
+    broken = common.proof_stage(ctx, ["SoxrModel.Properties.C14", "SoxrModel.Phase.Main"], "C14", exes=(), gens=("Phase",))
     P.harness()
     if getattr(ctx, "replay", None):
         rep = json.load(open(ctx.replay)).get("replay", {})
